@@ -22,6 +22,9 @@
 code can throw.
 """
 
+import re
+
+from spyne.util import six
 from spyne.model.fault import Fault
 
 
@@ -88,6 +91,20 @@ class MissingFieldError(InvalidInputError):
         super(MissingFieldError, self).__init__(self.CODE, message)
 
 
+_UNPRINTABLE_CHARS = re.compile(
+                 u'[\x00-\x08\x0b\x0c\x0e-\x1f\ud800-\udfff\ufffe\uffff]')
+
+
+def printable_text(s):
+    """Returns the text with the characters that not every output protocol can
+    carry (XML 1.0 has no way to write most control characters or a lone
+    surrogate) written as Python escapes."""
+
+    if isinstance(s, six.text_type):
+        return _UNPRINTABLE_CHARS.sub(lambda m: '\\u%04x' % ord(m.group()), s)
+    return s
+
+
 class ValidationError(Fault):
     """Raised when the input stream does not adhere to type constraints."""
 
@@ -99,7 +116,9 @@ class ValidationError(Fault):
         except TypeError:
             msg = custom_msg
 
-        super(ValidationError, self).__init__(self.CODE, msg)
+        # the message echoes request content, and it has to get back to the
+        # client in whatever the output protocol is
+        super(ValidationError, self).__init__(self.CODE, printable_text(msg))
 
 
 class InternalError(Fault):
